@@ -14,7 +14,7 @@ from vf.sim.drive import outcome_maps, run_async
 
 PROP_ID = 'C25'
 LEVEL = 'exploration'
-BUDGET = {'quick': 380, 'thorough': 9000}
+BUDGET = {'quick': 260, 'thorough': 6000}
 MANIFEST = {
     'engine': 'S',
     'technique': 'stateful PBT: hook after every Scheduler.'
@@ -31,7 +31,8 @@ RULE = (
     'edit kinds) and a history of <= 50 steps over loop / fair round / return '
     '/ advance / deliver, commands hold, release, trigger (also in a new '
     'flow), set, remove, pause, resume, reload of an edited or unchanged '
-    'definition, and set_graph_window_extent(0..3); then a fair drain.  '
+    'definition, and set_graph_window_extent(0..3); then <= 25 rounds of the '
+    'fair schedule.  '
     'After every Scheduler.update_data_structure made inside a main-loop '
     'iteration: each pooled task has a PbTaskProxy in the store with equal '
     'state, is_held, is_queued, is_runahead, flow numbers, set of completed '
@@ -75,6 +76,7 @@ ASSUMPTIONS = [
 ]
 
 CMD_OPS = ['hold', 'release', 'trigger', 'set', 'remove', 'pause', 'resume']
+TAIL_ROUNDS = 25
 TOPICS = ['edges', 'families', 'family_proxies', 'jobs', 'tasks',
           'task_proxies']
 
@@ -471,7 +473,11 @@ async def _check(case, ctx: Ctx) -> CaseResult:
         drv.COMMANDS = drv.COMMANDS + ('window',)
         drv.cmd_window = cmd_window
         await sc.run_schedule()
-        await sc.drain()
+        # bounded fair tail (no liveness claim in this property)
+        for _ in range(TAIL_ROUNDS):
+            if not sim.running:
+                break
+            await drv.step('round', 0)
         if mon.harness_error is not None:
             raise RuntimeError('C25 monitor failed') from mon.harness_error
         viol = crash_violations(sc, 'C25') + mon.viol
@@ -512,7 +518,7 @@ async def _check(case, ctx: Ctx) -> CaseResult:
             uniq.setdefault(v.sig, v)
         return CaseResult(
             list(uniq.values()), nontrivial, sorted(classes),
-            inconclusive=sc.inconclusive or spin,
+            inconclusive=spin,
             info={'flow': drv.flow_text, 'stats': st_})
 
 
